@@ -33,3 +33,31 @@ Example C09_nonvacuous :
       ODelete [1%N]; ORead [2%N] false 200; OLen]).1.2
   = [RUnit; RUnit; RErr ENotFound; RVal 6; RErr ENotFound; RVal 6; RLen 1].
 Proof. vm_compute. reflexivity. Qed.
+
+(* ---- tie to the source: the function bodies below are re-translated from /repo on every run
+   (harness/cmd/gofunc -> theories/Generated/Funcs.v, interpreted by theories/GoIR.v) ---- *)
+From Coq Require Import String.
+From Cache Require Import GoIR TieBackend.
+From Cache.Generated Require Import Funcs.
+Open Scope string_scope.
+Open Scope Z_scope.
+
+(* Read and Delete of the sharded maps act on the resident entry only when bytes.Equal(entry.K, key) holds: a
+   resident entry of another key with the same hash is a miss / ErrNotFound and is left alone *)
+Theorem C09_source_key_check : forall skip present same,
+  run_read fn_shardedMap_Read skip present same = Some (read_spec_sharded skip present same) /\
+  run_delete fn_shardedMap_Delete present same = Some (delete_spec_sharded present same) /\
+  run_delete fn_shardedMapOf_Delete present same = Some (delete_spec_sharded present same).
+Proof.
+  intros; split; [exact (tie_read_sharded _ _ _)|exact (tie_delete_sharded _ _)].
+Qed.
+Print Assumptions C09_source_key_check.
+
+(* Write stores a fresh copy of the key (make + copy), never the caller's slice, in all three backends, and hands
+   that copy to NotifyWritten *)
+Theorem C09_source_write_copies_key : forall v ttl at_,
+  run_write fn_shardedMap_Write v ttl at_ = Some (write_spec true "TraitEntry" v ttl at_) /\
+  run_write fn_shardedMapOf_Write v ttl at_ = Some (write_spec true "TraitEntryOf[V]" v ttl at_) /\
+  run_write fn_syncMap_Write v ttl at_ = Some (write_spec false "TraitEntry" v ttl at_).
+Proof. exact tie_write. Qed.
+Print Assumptions C09_source_write_copies_key.
